@@ -289,6 +289,38 @@ func runUUID(e *Env) {
 		}
 		x[8] = 0x80 | x[8]&0x3f
 		lo, hi := gocql.MinTimeUUID(t), gocql.MaxTimeUUID(t)
+		// every time-UUID built from a time (the bounds, and one with an arbitrary clock
+		// sequence and node) is version 1 and of the RFC 4122 variant
+		nodeID := make([]byte, 6)
+		for i := range nodeID {
+			nodeID[i] = byte(tp.Next(256))
+		}
+		clock := uint32(tp.Next(1 << 16))
+		if tp.Chance(1, 3) {
+			clock = []uint32{0, 0x3fff, 0x4000, 0x7f7f, 0x8080, 0xffff, 0x10000, 0xffffffff}[tp.Next(8)]
+		}
+		built := gocql.TimeUUIDWith(u.Timestamp(), clock, nodeID)
+		for _, c := range []struct {
+			what string
+			u    gocql.UUID
+		}{{"MinTimeUUID", lo}, {"MaxTimeUUID", hi}, {fmt.Sprintf("TimeUUIDWith(clock=%#x)", clock), built}} {
+			if c.u.Version() != 1 || c.u.Variant() != gocql.VariantIETF || c.u.Timestamp() != u.Timestamp() {
+				k.Violate("C19", "C19/wrong-version-or-variant", "%s for %v = %s has version %d variant %d timestamp %d (want 1, %d = RFC 4122, %d)",
+					c.what, t.UTC(), c.u, c.u.Version(), c.u.Variant(), c.u.Timestamp(), gocql.VariantIETF, u.Timestamp())
+				return
+			}
+		}
+		// a string that is a UUID except for one character that is not a hex digit is rejected
+		str := []rune(u.String())
+		pos := tp.Next(len(str))
+		if str[pos] != '-' {
+			bad := []rune{'g', 'G', ' ', 'x', 0x0130, 0x0141, 0x0461, 0x2139, 0x1F535, '/', ':', '@', '`', 0xff10}[tp.Next(14)]
+			str[pos] = bad
+			if p, err := gocql.ParseUUID(string(str)); err == nil {
+				k.Violate("C19", "C19/parse-accepts-non-hex", "ParseUUID(%q) succeeded (%s): position %d holds %q, not a hex digit", string(str), p, pos, bad)
+				return
+			}
+		}
 		if lo.Timestamp() != u.Timestamp() || hi.Timestamp() != u.Timestamp() || uuidCassandraLess(x, lo) || uuidCassandraLess(hi, x) {
 			k.Violate("C19", "C19/min-max-not-bounds", "version-1 UUID %s of instant %v is not within [MinTimeUUID=%s, MaxTimeUUID=%s] under Cassandra's timeuuid order", x, t.UTC(), lo, hi)
 			return
